@@ -141,50 +141,54 @@ pub fn strategy() -> impl Strategy<Value = Case> {
     (gen::game_strategy(40), 0u8..6, 1u8..=5, proptest::collection::vec(any::<u16>(), 8)).prop_map(|(game, mode, n, ent)| Case { game, mode, n, ent })
 }
 
-pub fn search_case(ctx: &Ctx, position: &str, fen_after: &str, go: &str, depth_only: Option<u64>, deadline: Duration, rep: &mut Report) -> Result<(), Violation> {
-    let mut eng = match Engine::spawn(&ctx.engine, &[]) {
-        Ok(e) => e,
-        Err(e) => {
-            rep.infra_errors.push(format!("cannot spawn engine: {e}"));
-            return Ok(());
-        }
-    };
-    let replay = json!({"position": position, "fen_after": fen_after, "go": go, "depth_only": depth_only, "deadline_ms": deadline.as_millis() as u64});
-    let fail = |clause: &str, sig: String, detail: String, eng: &Engine| -> Violation {
-        let mut r = replay.clone();
-        r["transcript"] = json!(eng.transcript(30));
-        Violation::new(clause, &sig, detail, r)
-    };
-    if !eng.ready(Duration::from_secs(10)) {
-        rep.infra_errors.push("engine did not answer the first isready".into());
-        return Ok(());
-    }
+#[derive(Clone, Debug)]
+pub struct StepSpec {
+    pub position: String,
+    pub fen_after: String,
+    pub go: String,
+    pub depth_only: Option<u64>,
+    pub deadline_ms: u64,
+}
+
+pub fn steps_json(steps: &[StepSpec]) -> Value {
+    json!({"steps": steps.iter().map(|s| json!({"position": s.position, "fen_after": s.fen_after, "go": s.go, "depth_only": s.depth_only, "deadline_ms": s.deadline_ms})).collect::<Vec<_>>()})
+}
+
+/// One (position, go) on a running engine: collects the info lines up to the bestmove and
+/// judges them.  Ok(Some(bestmove)) / Ok(None) = not judged (no bestmove: C09's subject).
+/// The Violation's replay is filled in by the caller.
+pub fn judge_one(eng: &mut Engine, st: &StepSpec, rep: &mut Report) -> Result<Option<String>, Violation> {
+    let (position, fen_after, go, depth_only) = (st.position.as_str(), st.fen_after.as_str(), st.go.as_str(), st.depth_only);
+    let deadline = Duration::from_millis(st.deadline_ms);
+    let fail = |clause: &str, sig: String, detail: String| -> Violation { Violation::new(clause, &sig, detail, json!(null)) };
     eng.send(position);
     eng.send(go);
     rep.eval(1);
     let root = Pos::from_fen(fen_after).unwrap();
     let mut infos: Vec<(String, Info)> = vec![];
+    let bestmove;
     loop {
         let ev = eng.wait_for(deadline, |e| e.stream == Stream::Out || e.eof || (e.stream == Stream::Err && uciproc::is_panic_line(&e.line)));
         match ev {
             None => {
                 // no bestmove in time: C09's subject, not judged here
                 rep.class("skipped:no-bestmove(C09)");
-                return Ok(());
+                return Ok(None);
             }
             Some(e) if e.stream == Stream::Err || e.eof => {
                 rep.class("skipped:search-thread-died(C09)");
-                return Ok(());
+                return Ok(None);
             }
             Some(e) => {
                 if e.line.starts_with("bestmove") {
+                    bestmove = e.line.split_whitespace().nth(1).unwrap_or("").to_string();
                     break;
                 }
                 if e.line.starts_with("info") {
                     match parse_info(&e.line) {
                         Ok(i) => infos.push((e.line.clone(), i)),
                         Err(why) => {
-                            return Err(fail("syntax", "syntax/info-line".into(), format!("'{go}' at {fen_after}: malformed info line '{}': {why}", e.line), &eng));
+                            return Err(fail("syntax", "syntax/info-line".into(), format!("'{go}' at {fen_after}: malformed info line '{}': {why}", e.line)));
                         }
                     }
                 }
@@ -196,20 +200,20 @@ pub fn search_case(ctx: &Ctx, position: &str, fen_after: &str, go: &str, depth_o
         let d = inf.depth.unwrap();
         if d != k as i64 + 1 {
             let kind = if d <= k as i64 { "repeat-or-backwards" } else { "gap" };
-            return Err(fail("order", format!("order/{kind}"), format!("'{go}' at {fen_after}: iteration report #{} has depth {d} ('{line}')", k + 1), &eng));
+            return Err(fail("order", format!("order/{kind}"), format!("'{go}' at {fen_after}: iteration report #{} has depth {d} ('{line}')", k + 1)));
         }
         if inf.score.is_none() {
-            return Err(fail("syntax", "syntax/no-score".into(), format!("'{go}' at {fen_after}: iteration report without a score: '{line}'"), &eng));
+            return Err(fail("syntax", "syntax/no-score".into(), format!("'{go}' at {fen_after}: iteration report without a score: '{line}'")));
         }
         if !inf.has_pv {
-            return Err(fail("syntax", "syntax/no-pv".into(), format!("'{go}' at {fen_after}: iteration report without a pv: '{line}'"), &eng));
+            return Err(fail("syntax", "syntax/no-pv".into(), format!("'{go}' at {fen_after}: iteration report without a pv: '{line}'")));
         }
         let mut p = root.clone();
         for (j, mv) in inf.pv.iter().enumerate() {
             match p.find_legal(mv) {
                 Some(m) => p = p.make(m),
                 None => {
-                    return Err(fail("pv", format!("pv/illegal-move/ply{}", (j + 1).min(3)), format!("'{go}' at {fen_after}: pv move #{} '{mv}' of '{line}' is not legal (position then: {})", j + 1, p.to_fen()), &eng));
+                    return Err(fail("pv", format!("pv/illegal-move/ply{}", (j + 1).min(3)), format!("'{go}' at {fen_after}: pv move #{} '{mv}' of '{line}' is not legal (position then: {})", j + 1, p.to_fen())));
                 }
             }
         }
@@ -222,9 +226,9 @@ pub fn search_case(ctx: &Ctx, position: &str, fen_after: &str, go: &str, depth_o
     }
     if let Some(n) = depth_only {
         if iters.len() as u64 != n {
-            return Err(fail("complete", format!("complete/depth-{}-of-{}", iters.len().min(9), n.min(9)), format!("'{go}' at {fen_after}: {} iteration reports before bestmove, expected exactly {n}", iters.len()), &eng));
+            return Err(fail("complete", format!("complete/depth-{}-of-{}", iters.len().min(9), n.min(9)), format!("'{go}' at {fen_after}: {} iteration reports before bestmove, expected exactly {n}", iters.len())));
         }
-        rep.class(&format!("depth-only:N={n}"));
+        rep.class(&format!("depth-only:N={}", if n > 5 { ">5".to_string() } else { n.to_string() }));
         if n >= 2 {
             rep.nontrivial(o::hash_str(&format!("{fen_after}|{go}")));
         }
@@ -235,7 +239,94 @@ pub fn search_case(ctx: &Ctx, position: &str, fen_after: &str, go: &str, depth_o
         }
     }
     rep.class_n("iteration-reports", iters.len() as u64);
-    rep.sample(|| json!({"position": position, "go": go, "reports": infos.iter().map(|x| x.0.clone()).collect::<Vec<_>>()}));
+    rep.sample(|| json!({"position": position, "go": go, "reports": infos.iter().map(|x| x.0.clone()).take(8).collect::<Vec<_>>()}));
+    Ok(Some(bestmove))
+}
+
+/// A fixed list of steps on one fresh engine process.
+pub fn run_steps(ctx: &Ctx, steps: &[StepSpec], rep: &mut Report) -> Result<(), Violation> {
+    let mut eng = match Engine::spawn(&ctx.engine, &[]) {
+        Ok(e) => e,
+        Err(e) => {
+            rep.infra_errors.push(format!("cannot spawn engine: {e}"));
+            return Ok(());
+        }
+    };
+    if !eng.ready(Duration::from_secs(10)) {
+        rep.infra_errors.push("engine did not answer the first isready".into());
+        return Ok(());
+    }
+    for (i, st) in steps.iter().enumerate() {
+        match judge_one(&mut eng, st, rep) {
+            Ok(Some(_)) => {}
+            Ok(None) => break,
+            Err(mut v) => {
+                let mut r = steps_json(&steps[..=i]);
+                r["transcript"] = json!(eng.transcript(30));
+                v.replay = r;
+                return Err(v);
+            }
+        }
+    }
+    eng.send("quit");
+    let _ = eng.wait_exit(Duration::from_secs(2));
+    Ok(())
+}
+
+pub fn search_case(ctx: &Ctx, position: &str, fen_after: &str, go: &str, depth_only: Option<u64>, deadline: Duration, rep: &mut Report) -> Result<(), Violation> {
+    run_steps(ctx, &[StepSpec { position: position.into(), fen_after: fen_after.into(), go: go.into(), depth_only, deadline_ms: deadline.as_millis() as u64 }], rep)
+}
+
+/// Game flow: several searches in ONE engine process along a game (the engine's own move, then
+/// a generated reply), so later searches meet cache entries left by earlier ones.
+pub fn flow_case(ctx: &Ctx, start: &Pos, gos: usize, depth: u64, replies: &[u16], rep: &mut Report) -> Result<(), Violation> {
+    flow_case_from(ctx, &Game::new(start.clone()), gos, depth, replies, rep)
+}
+
+pub fn flow_case_from(ctx: &Ctx, from: &Game, gos: usize, depth: u64, replies: &[u16], rep: &mut Report) -> Result<(), Violation> {
+    let mut eng = match Engine::spawn(&ctx.engine, &[]) {
+        Ok(e) => e,
+        Err(e) => {
+            rep.infra_errors.push(format!("cannot spawn engine: {e}"));
+            return Ok(());
+        }
+    };
+    if !eng.ready(Duration::from_secs(10)) {
+        rep.infra_errors.push("engine did not answer the first isready".into());
+        return Ok(());
+    }
+    let mut game = from.clone();
+    let mut steps: Vec<StepSpec> = vec![];
+    for k in 0..gos {
+        if game.cur.legal_moves().is_empty() {
+            break;
+        }
+        let st = StepSpec { position: position_command(&game.start, &game.moves_uci()), fen_after: game.cur.to_fen(), go: format!("go depth {depth}"), depth_only: Some(depth), deadline_ms: 120_000 };
+        steps.push(st.clone());
+        let best = match judge_one(&mut eng, &st, rep) {
+            Ok(Some(b)) => b,
+            Ok(None) => break,
+            Err(mut v) => {
+                let mut r = steps_json(&steps);
+                r["transcript"] = json!(eng.transcript(30));
+                v.replay = r;
+                v.sig = format!("{}/game-flow", v.sig);
+                return Err(v);
+            }
+        };
+        rep.class("flow:go");
+        if k > 0 {
+            rep.class("flow:later-go(cache holds earlier searches)");
+        }
+        let Some(m) = game.cur.find_legal(&best) else { break };
+        game.play(m);
+        let legal = game.cur.legal_moves();
+        if legal.is_empty() {
+            break;
+        }
+        let r = legal[pick16(replies.get(k).copied().unwrap_or(0), legal.len())];
+        game.play(r);
+    }
     eng.send("quit");
     let _ = eng.wait_exit(Duration::from_secs(2));
     Ok(())
@@ -275,6 +366,52 @@ pub fn run(ctx: &Ctx) -> Report {
             }
         }
     }
+    // 'go depth 255' (the top of the range) on a position whose forced mate keeps every iteration tiny
+    if ctx.shard_index() == 1 {
+        let pos = "position fen 8/1R6/2N2P2/2kP4/2P4P/3P4/8/6K1 w - - 1 94 moves f6f7 c5d6";
+        let mut g = Game::new(Pos::from_fen("8/1R6/2N2P2/2kP4/2P4P/3P4/8/6K1 w - - 1 94").unwrap());
+        for u in ["f6f7", "c5d6"] {
+            let m = g.cur.find_legal(u).unwrap();
+            g.play(m);
+        }
+        for n in [40u64, 255] {
+            if let Err(v) = search_case(ctx, pos, &g.cur.to_fen(), &format!("go depth {n}"), Some(n), Duration::from_secs(120), &mut rep) {
+                if let Some(k) = ctx.is_known(&v.sig) {
+                    rep.known(&v.sig, &k.text);
+                } else {
+                    rep.violation(v);
+                }
+            }
+        }
+    }
+    // game flow: 6-10 consecutive depth-3/4 searches along a game in one engine process
+    let flows = ctx.tier.pick(48, 800) / ctx.shard_count() as u32;
+    let fstrat = (gen::game_strategy(24), proptest::collection::vec(any::<u16>(), 10), 3u64..=4, 6usize..=10);
+    run_prop(ctx, "c14-flow", flows, 20, fstrat, &mut rep, |(g, replies, depth, gos), rep| {
+        let mix = gen::StartMix { startpos: 4, corpus: 6, synth: 2, pattern: 3 };
+        let Some((start, _)) = gen::start_pos(&g.start, &corp, mix) else { return Ok(()) };
+        let mut game = Game::new(start);
+        for &ch in &g.choices {
+            let legal = game.cur.legal_moves();
+            if legal.is_empty() {
+                break;
+            }
+            game.play(gen::choose_move(&game, &legal, g.weighted, ch));
+        }
+        while game.cur.legal_moves().is_empty() && !game.moves.is_empty() {
+            game.undo();
+        }
+        if game.cur.legal_moves().is_empty() || game.cur.legal_moves().len() > 38 {
+            return Ok(());
+        }
+        // keep the played history (repetitions matter to the search) by starting the flow from the game
+        let mut flow_start = Game::new(game.start.clone());
+        for m in &game.moves {
+            flow_start.play(*m);
+        }
+        rep.class("flow:session");
+        flow_case_from(ctx, &flow_start, *gos, *depth, replies, rep)
+    });
     let cases = ctx.tier.pick(1600, 24_000) / ctx.shard_count() as u32;
     run_prop(ctx, "c14", cases, 40, strategy(), &mut rep, |c, rep| {
         let mix = gen::StartMix { startpos: 2, corpus: 6, synth: 3, pattern: 5 };
@@ -316,21 +453,32 @@ pub fn run(ctx: &Ctx) -> Report {
 
 pub fn replay(ctx: &Ctx, case: &Value) -> Report {
     let mut rep = Report::new();
-    let r = search_case(
-        ctx,
-        case["position"].as_str().unwrap_or("position startpos"),
-        case["fen_after"].as_str().unwrap_or(""),
-        case["go"].as_str().unwrap_or("go depth 1"),
-        case["depth_only"].as_u64(),
-        Duration::from_millis(case["deadline_ms"].as_u64().unwrap_or(120_000)),
-        &mut rep,
-    );
-    if let Err(v) = r {
+    let mut steps: Vec<StepSpec> = vec![];
+    if let Some(a) = case["steps"].as_array() {
+        for s in a {
+            steps.push(StepSpec {
+                position: s["position"].as_str().unwrap_or("position startpos").into(),
+                fen_after: s["fen_after"].as_str().unwrap_or("").into(),
+                go: s["go"].as_str().unwrap_or("go depth 1").into(),
+                depth_only: s["depth_only"].as_u64(),
+                deadline_ms: s["deadline_ms"].as_u64().unwrap_or(120_000),
+            });
+        }
+    } else {
+        steps.push(StepSpec {
+            position: case["position"].as_str().unwrap_or("position startpos").into(),
+            fen_after: case["fen_after"].as_str().unwrap_or("").into(),
+            go: case["go"].as_str().unwrap_or("go depth 1").into(),
+            depth_only: case["depth_only"].as_u64(),
+            deadline_ms: case["deadline_ms"].as_u64().unwrap_or(120_000),
+        });
+    }
+    if let Err(v) = run_steps(ctx, &steps, &mut rep) {
         rep.violation(v);
     }
     rep
 }
 
 pub const LEVEL: &str = "exploration";
-pub const RULE: &str = "searches on the real engine binary: positions with >= 1 legal move (startpos / corpus / synthesised / pattern starts incl. mate nets, plus up to 40 plies of play) x 'go depth N' alone (N = 1..5; 5 only with <= 25 legal moves) and, for the ordering and PV clauses, 'go nodes {50..100000}' / 'go movetime {5..300}'. Oracle: every stdout line starting with 'info' parses as UCI info (standard keys in any order, well-formed integers, moves in coordinate notation, score cp|mate); lines carrying 'depth' have depths exactly 1,2,...,k, each with a score and a non-empty pv that replays as legal moves from the searched position on the rules oracle; under 'go depth N' alone k == N before the bestmove. A missing bestmove is C09's subject and only counted here. Non-trivial = depth-only search with N >= 2, or a limited search with >= 2 iteration reports; distinct by (position, go command).";
+pub const RULE: &str = "searches on the real engine binary: positions with >= 1 legal move (startpos / corpus / synthesised / pattern starts incl. mate nets, plus up to 40 plies of play) x 'go depth N' alone (N = 1..5; 5 only with <= 25 legal moves; plus N = 40 and 255 on a forced-mate position), game-flow sessions (6-10 consecutive depth-3/4 searches along a game in ONE engine process: the engine's own move, then a generated reply, so later searches meet cache entries of earlier ones) and, for the ordering and PV clauses, 'go nodes {50..100000}' / 'go movetime {5..300}'. Oracle: every stdout line starting with 'info' parses as UCI info (standard keys in any order, well-formed integers, moves in coordinate notation, score cp|mate); lines carrying 'depth' have depths exactly 1,2,...,k, each with a score and a non-empty pv that replays as legal moves from the searched position on the rules oracle; under 'go depth N' alone k == N before the bestmove. A missing bestmove is C09's subject and only counted here. Non-trivial = depth-only search with N >= 2, or a limited search with >= 2 iteration reports; distinct by (position, go command).";
 pub const ASSUMPTIONS: &[&str] = &["the rules oracle replays the PVs", "whether a reported mate distance is right is not asserted (the statement does not fix it)"];
